@@ -405,7 +405,13 @@ class Interp:
     def call_real(self, f, args, kwargs, frame, cls_ctx=None):
         key = id(f)
         if key in MODELS and MODELS[key][0] is f:
-            return MODELS[key][1](self, args, kwargs)
+            try:
+                return MODELS[key][1](self, args, kwargs)
+            except Unsupported:
+                if self.lenient:
+                    self.ex.note("opaque-call", f"{getattr(f, '__module__', '')}.{getattr(f, '__name__', 'model')} (model not applicable to these arguments)")
+                    return self.opaque_result(f"{getattr(f, '__name__', 'model')}()", list(args) + list(kwargs.values()))
+                raise
         if isinstance(f, types.MethodType):
             # bound method of a concrete real object (classmethod, module-level instance...)
             inner = f.__func__
@@ -423,6 +429,16 @@ class Interp:
             self.ex.note("opaque-call", f"{mod}.{name}")
             return self.opaque_result(f"{mod}.{name}()", list(args) + list(kwargs.values()))
         raise Unsupported(f"call to unmodelled callable {mod}.{name}")
+
+    def has_opaque(self, vals):
+        for v in vals:
+            if isinstance(v, Opaque):
+                return True
+            if isinstance(v, (tuple, list)) and self.has_opaque(v):
+                return True
+            if isinstance(v, PList) and self.has_opaque(v.items):
+                return True
+        return False
 
     def opaque_result(self, tag, inputs):
         ef = any(isinstance(x, Opaque) and x.elem_frozen for x in inputs)
@@ -453,6 +469,9 @@ class Interp:
             obj = Obj(cls)
             self.call_repo(cls.__init__, [obj] + list(args), kwargs, frame, cls_ctx=reflect.defining_class(cls, "__init__"))
             return obj
+        if self.lenient:
+            self.ex.note("opaque-call", f"{cls.__module__}.{cls.__qualname__}(...)")
+            return Opaque(f"{cls.__qualname__}()", cls=None)
         raise Unsupported(f"construction of unmodelled class {cls.__module__}.{cls.__qualname__}")
 
     # ------------------------------------------------------------------ attribute access
@@ -499,7 +518,15 @@ class Interp:
             fn = METHODS[key]
             if getattr(fn, "is_property", False):
                 return fn(self, v)
-            return EngineCallable(lambda interp, a, kw, _fn=fn, _v=v: _fn(interp, _v, *a, **kw), f"{type(v).__name__}.{name}")
+            def _call(interp, a, kw, _fn=fn, _v=v, _n=name):
+                try:
+                    return _fn(interp, _v, *a, **kw)
+                except Unsupported:
+                    if interp.lenient and interp.has_opaque(list(a) + list(kw.values())):
+                        return Opaque(f"{type(_v).__name__}.{_n}()")
+                    raise
+
+            return EngineCallable(_call, f"{type(v).__name__}.{name}")
         if isinstance(v, (SV, DynV, PList, SList, PDict, SDict, Arr, Opaque, WeakRef)):
             raise Unsupported(f"attribute {name} of {type(v).__name__}")
         # concrete python object (module, class, enum member, uuid, str ...)
@@ -947,6 +974,8 @@ class Interp:
             return list(it)
         if inspect.isclass(it) and issubclass(it, enum.Enum):
             return list(it)
+        if isinstance(it, (SV, DynV)) and self.lenient:
+            it = Opaque("iterable")
         if isinstance(it, Opaque) and self.lenient:
             # abstract loop: 0, 1 or 2 arbitrary elements (bounded; reported in the evidence)
             self.ex.note("abstract-loop", f"iteration over <{it.tag}> unrolled 0..2 times with arbitrary elements")
